@@ -78,6 +78,9 @@ pub struct Matcher {
     matches: Vec<MatchResult>,
     /// Section 104 pools (remaining after same-day and B&B)
     pools: HashMap<String, Section104Holding>,
+    /// Shares actually held per ticker (all acquisitions minus all disposals so far,
+    /// rescaled by splits), independent of which rule matched each disposal
+    held: HashMap<String, Decimal>,
 }
 
 impl Matcher {
@@ -87,6 +90,7 @@ impl Matcher {
             ledgers: HashMap::new(),
             matches: Vec::new(),
             pools: HashMap::new(),
+            held: HashMap::new(),
         }
     }
 
@@ -133,6 +137,7 @@ impl Matcher {
                         )));
                     }
                     let cost_offset = cost_offsets.get(idx).copied().unwrap_or(Decimal::ZERO);
+                    *self.held.entry(tx.ticker.clone()).or_insert(Decimal::ZERO) += *amount;
                     let ledger = self.ledgers.entry(tx.ticker.clone()).or_default();
                     ledger.add_acquisition(
                         idx,
@@ -391,13 +396,18 @@ impl Matcher {
             .get(&tx.ticker)
             .map(|p| p.quantity)
             .unwrap_or(Decimal::ZERO);
-        let total_held = ledger_held + pool_held;
+        // Shares sold earlier and identified with a later acquisition (S106A) leave the
+        // pool untouched but are no longer held, so the check uses the running holding.
+        let total_held = self.held.get(&tx.ticker).copied().unwrap_or(Decimal::ZERO);
         if *amount > total_held {
             return Err(CgtError::InvalidTransaction(format!(
                 "SELL {} on {}: disposal of {} shares exceeds holding of {} \
                  (same-day ledger: {}, S104 pool: {})",
                 tx.ticker, tx.date, amount, total_held, ledger_held, pool_held
             )));
+        }
+        if let Some(held) = self.held.get_mut(&tx.ticker) {
+            *held -= *amount;
         }
 
         let mut remaining = *amount;
@@ -486,12 +496,20 @@ impl Matcher {
                 if let Some(pool) = self.pools.get_mut(&tx.ticker) {
                     pool.quantity *= *ratio;
                 }
+                if let Some(held) = self.held.get_mut(&tx.ticker) {
+                    *held *= *ratio;
+                }
             }
             Operation::Unsplit { ratio } => {
                 if let Some(pool) = self.pools.get_mut(&tx.ticker)
                     && *ratio != Decimal::ZERO
                 {
                     pool.quantity /= *ratio;
+                }
+                if let Some(held) = self.held.get_mut(&tx.ticker)
+                    && *ratio != Decimal::ZERO
+                {
+                    *held /= *ratio;
                 }
             }
             Operation::Buy { .. }
